@@ -355,6 +355,34 @@ def extract_web_rules(src_root):
     return consts, rules, guarded
 
 
+def extract_mapping(src_root):
+    """ProteinSequence.alphabet (the symbols exotic sequences are mapped onto) and the size test of map_sequence."""
+    tree = ast.parse(open(os.path.join(src_root, "biotite", "sequence", "seqtypes.py")).read())
+    cls = next((n for n in tree.body if isinstance(n, ast.ClassDef) and n.name == "ProteinSequence"), None)
+    letters = None
+    for st in (cls.body if cls else []):
+        if isinstance(st, ast.Assign) and len(st.targets) == 1 and isinstance(st.targets[0], ast.Name) and st.targets[0].id == "alphabet" \
+                and isinstance(st.value, ast.Call) and st.value.args and isinstance(st.value.args[0], ast.List):
+            letters = [e.value for e in st.value.args[0].elts if isinstance(e, ast.Constant) and isinstance(e.value, str)]
+            if len(letters) != len(st.value.args[0].elts) or any(len(x) != 1 for x in letters):
+                raise ValueError("ProteinSequence.alphabet is not a list of one-letter string constants")
+    if not letters:
+        raise ValueError("ProteinSequence.alphabet = LetterAlphabet([...]) not found")
+    utree = ast.parse(open(os.path.join(src_root, "biotite", "application", "util.py")).read())
+    fn = next((n for n in utree.body if isinstance(n, ast.FunctionDef) and n.name == "map_sequence"), None)
+    if fn is None:
+        raise ValueError("map_sequence not found")
+    tests = [n.test for n in fn.body if isinstance(n, ast.If) and isinstance(n.test, ast.Compare)]
+    if len(tests) != 1 or len(tests[0].ops) != 1:
+        raise ValueError("map_sequence: expected exactly one `if len(...) <op> len(...)`")
+    left, right = ast.unparse(tests[0].left), ast.unparse(tests[0].comparators[0])
+    if "sequence.alphabet" not in left or "ProteinSequence.alphabet" not in right:
+        raise ValueError("map_sequence: size test has an unexpected shape: " + ast.unparse(tests[0]))
+    code_taken_over = any(isinstance(n, ast.Assign) and ast.unparse(n.targets[0]).endswith(".code") and
+                          ast.unparse(n.value) == "sequence.code" for n in ast.walk(fn))
+    return letters, type(tests[0].ops[0]).__name__, code_taken_over
+
+
 def _lean_str(s):
     return '"' + s.replace("\\", "\\\\").replace('"', '\\"') + '"'
 
@@ -367,6 +395,7 @@ def gen_lean():
     from common import paths
     classes, polls = extract_tables(paths.SRC)
     web_consts, web_rules, web_guarded = extract_web_rules(paths.SRC)
+    map_letters, map_op, map_code = extract_mapping(paths.SRC)
     L = ["/- REGENERATED on every run by harness/props/c20.py from src/biotite/application/*.py. Do not edit. -/",
          "namespace BiotiteModel.Gen.C20",
          "/-- (class, direct bases). -/",
@@ -399,6 +428,11 @@ def gen_lean():
          "def webRules : List (String × String × Bool) := " + _lean_list(
              f"({_lean_str(a)}, {_lean_str(b)}, {'true' if c else 'false'})" for a, b, c in web_rules),
          "def webViolateOnlyIfObey : Bool := " + ("true" if web_guarded else "false"),
+         "/-- Exotic sequence types: `ProteinSequence.alphabet` (seqtypes.py), the operator of map_sequence's size test",
+         "`len(sequence.alphabet) <op> len(ProteinSequence.alphabet)` → TypeError, and that the code is taken over unchanged. -/",
+         "def proteinAlphabet : List Char := " + _lean_list("'" + ("\\'" if c == "'" else c) + "'" for c in map_letters),
+         "def mapSequenceRejectOp : String := " + _lean_str(map_op),
+         "def mapSequenceTakesCodeOver : Bool := " + ("true" if map_code else "false"),
          "/-- Does the refusal branch of `requires_state` call `get_app_state()` / `is_finished()` (a side effect)? -/",
          "def refusalPolls : Bool := " + ("true" if polls else "false"),
          "end BiotiteModel.Gen.C20", ""]
@@ -443,9 +477,24 @@ class _Session:
         self.force_finish = False     # watchdog: unblock a join() of the stub that would wait forever
 
     # -- construction
+    def alphabet_size(self):
+        """`generic` = a custom alphabet of 3 symbols, `generic<K>` of K symbols."""
+        return int(self.seqkind[7:] or 3)
+
     def _sequences(self):
         from biotite.sequence import Alphabet, GeneralSequence, NucleotideSequence, ProteinSequence
-        pools = {"prot": "ACDEFGHIKLMNPQRSTVWY", "nuc": "ACGT", "generic": "xyz"}
+        if self.seqkind.startswith("generic"):
+            k = self.alphabet_size()
+            alph = Alphabet([f"s{c}" for c in range(k)])
+            seqs = []
+            for i in range(self.nseq):
+                n = 3 + (i * 2 + self.nseq) % 4
+                codes = [(i * 7 + j * (i + 1) + j * j + self.nseq) % k for j in range(n)]
+                if i == 0:
+                    codes[0] = k - 1            # the last symbol of the alphabet does occur
+                seqs.append(GeneralSequence(alph, [f"s{c}" for c in codes]))
+            return seqs
+        pools = {"prot": "ACDEFGHIKLMNPQRSTVWY", "nuc": "ACGT"}
         pool = pools[self.seqkind]
         seqs = []
         for i in range(self.nseq):
@@ -453,10 +502,8 @@ class _Session:
             text = "".join(pool[(i * 7 + j * (i + 1) + j * j + self.nseq) % len(pool)] for j in range(n))
             if self.seqkind == "prot":
                 seqs.append(ProteinSequence(text))
-            elif self.seqkind == "nuc":
-                seqs.append(NucleotideSequence(text))
             else:
-                seqs.append(GeneralSequence(Alphabet(list("xyz")), list(text)))
+                seqs.append(NucleotideSequence(text))
         return seqs
 
     def new(self):
@@ -528,7 +575,7 @@ class _Session:
             self.app = probe(TantanApp)(self.sequences, bin_path=bin_path)
             return
         matrix = None
-        if self.seqkind == "generic":
+        if self.seqkind.startswith("generic"):
             import numpy as np
             from biotite.sequence.align import SubstitutionMatrix
             alph = self.sequences[0].get_alphabet()
@@ -600,7 +647,7 @@ class _Session:
             for pos in alignment.trace[:, i]:
                 if pos == -1:
                     s += "-"
-                elif self.seqkind == "generic":
+                elif self.seqkind.startswith("generic"):
                     s += ProteinSequence.alphabet.decode(int(seq.code[pos]))
                 else:
                     s += str(seq.alphabet.decode(int(seq.code[pos])))
@@ -726,6 +773,11 @@ class _Session:
                     return "ok " + ",".join(("r" + str(i)) if by_header.get(str(i)) == g else "r?" for i, g in enumerate(got))
                 if name == "get_alignment_order":
                     return "ok " + ",".join(str(int(x)) for x in val)
+                if name == "get_guide_tree":
+                    return "ok " + _show_clades(val)
+                if name == "get_distance_matrix":
+                    return "ok " + ",".join(str(int(round(float(x)))) for x in val[0]) + (
+                        "" if all(abs(float(val[i][j]) - abs(i - j)) < 1e-9 for i in range(len(val)) for j in range(len(val))) else " !")
                 if name == "get_exit_code":
                     return "ok " + str(val)
                 if name == "get_seqtype":
@@ -983,6 +1035,11 @@ def _oracle_web(case, trace):
                 v.append((f"C20/lifecycle/accepted-but-forbidden/{name}@{b['st']}", f"{op} in {b['st']} -> {res} ({case['ops']})"))
             if refused and a != b:
                 v.append((f"C20/refusal-side-effect/web/{b['st']}", f"refused {op} changed {b} -> {a}"))
+            web_documented = {"start": {"ERR:ValueError", "ERR:RuleViolationError"}, "get_app_state": {"ERR:RuleViolationError"},
+                              "join": {"ERR:TimeoutError", "ERR:RuleViolationError"}}
+            if allowed and not refused and res.startswith("ERR:") and res not in web_documented.get(name, set()):
+                v.append((f"C20/lifecycle/allowed-call-raised/{name}@{b['st']}/{res[4:]}",
+                          f"`{op}` is allowed in {b['st']} but raised {res[4:]} ({case['ops']})"))
             if name == "join" and not refused:
                 if res == "ok" and a["st"] != "JOINED":
                     v.append(("C20/web/join-ok-not-joined", f"{op} -> ok but state {a['st']}"))
@@ -1038,6 +1095,69 @@ def _web_cases(rng, n, maxlen):
     return [{"kind": "web", "ops": o} for o in out]
 
 
+def _show_clades(tree):
+    """Canonical form of a guide tree in terms of *input indices*: the leaf sets of all internal nodes, sorted;
+    a set {0..k} is written `0..k`."""
+    clades = []
+
+    def leaves(node):
+        if node.is_leaf():
+            return [int(node.index)]
+        out = []
+        for ch in node.children:
+            out += leaves(ch)
+        clades.append(sorted(out))
+        return out
+
+    try:
+        leaves(tree.root)
+    except Exception as e:  # noqa: BLE001
+        return "!" + type(e).__name__
+    parts = []
+    for c in sorted(clades, key=lambda c: (len(c), c)):
+        parts.append(f"0..{c[-1]}" if c == list(range(len(c))) else ",".join(map(str, c)))
+    return ";".join(parts)
+
+
+def execute_mapseq(case):
+    """`mapseq <K> <codes>`: biotite.application.util.map_sequence on a sequence over a custom alphabet of K symbols."""
+    from biotite.application.util import map_sequence
+    from biotite.sequence import Alphabet, GeneralSequence
+    lines, trace = [], []
+    for op in case["ops"]:
+        w = op.split()
+        k, codes = int(w[1]), ([] if w[2] == "_" else [int(x) for x in w[2].split(",")])
+        try:
+            seq = GeneralSequence(Alphabet([f"s{c}" for c in range(k)]), [f"s{c}" for c in codes])
+            m = map_sequence(seq)
+            res = "ok " + (type(m).__name__ + ":" + "".join(m.get_alphabet().decode(int(c)) for c in m.code) if len(codes) else type(m).__name__ + ":_")
+        except Exception as e:  # noqa: BLE001
+            res = "ERR:" + type(e).__name__
+        lines.append(res)
+        trace.append({"op": op, "result": res, "k": k, "codes": codes})
+    return lines, trace
+
+
+PROTEIN_LETTERS = "ACDEFGHIKLMNPQRSTVWYBZX*"      # the amino-acid alphabet as documented (20 + B, Z, X, stop)
+
+
+def _oracle_mapseq(case, trace):
+    """Documented: mapping works unless the alphabet is *larger* than the amino-acid alphabet; symbol i becomes the i-th
+    amino-acid symbol (the code is taken over), so mapping back by code returns the original sequence."""
+    v = []
+    for t in trace:
+        k, codes, res = t["k"], t["codes"], t["result"]
+        if k > len(PROTEIN_LETTERS):
+            if res != "ERR:TypeError":
+                v.append((f"C20/map_sequence/oversized-alphabet-accepted/{k}", f"{t['op']} -> {res}"))
+        else:
+            exp = "ok ProteinSequence:" + ("".join(PROTEIN_LETTERS[c] for c in codes) if codes else "_")
+            if res != exp:
+                key = f"C20/map_sequence/legal-alphabet-rejected/{k}" if res.startswith("ERR") else f"C20/map_sequence/wrong-mapping/{k}"
+                v.append((key, f"{t['op']} -> {res}, expected {exp}"))
+    return v
+
+
 def _fmt_obs(o):
     return f"st={o['st']} cwd={o['cwd']} files={o['files']} child={o['child']} cl={o['cl']}"
 
@@ -1052,6 +1172,8 @@ def execute(case):
     w = ops[0].split()
     if w[0] == "newweb":
         return execute_web(case)
+    if w[0] == "mapseq":
+        return execute_mapseq(case)
     if w[0] != "new":
         return ["bad-op"] * len(ops), []
     sess = _Session(w[1], w[2], int(w[3]), w[4])
@@ -1203,11 +1325,25 @@ def oracle(case):
         return []
     if case["ops"][0].startswith("newweb"):
         return _oracle_web(case, trace)
+    if case["ops"][0].startswith("mapseq"):
+        return _oracle_mapseq(case, trace)
     w = case["ops"][0].split()
     wrapper, tool = w[1], w[2]
     v = []
     ended = None      # how the run ended
     joined_ok = False
+    nseq, seqkind = int(w[3]), w[4]
+    # construction: exotic sequence types are legal for wrappers with custom protein matrices up to the amino-acid alphabet size
+    if seqkind.startswith("generic") and wrapper in ("muscle3", "mafft") and not (wrapper == "muscle3" and tool in LAUNCH_FAILURE):
+        k = int(seqkind[7:] or 3)
+        r0 = trace[0]["result"]
+        if k <= len(PROTEIN_LETTERS) and r0 != "ok":
+            v.append((f"C20/map_sequence/legal-alphabet-rejected/{k}", f"`{case['ops'][0]}` -> {r0}: an alphabet of {k} symbols fits the amino-acid alphabet"))
+        if k > len(PROTEIN_LETTERS) and r0 != "ERR:TypeError":
+            v.append((f"C20/map_sequence/oversized-alphabet-accepted/{k}", f"`{case['ops'][0]}` -> {r0}"))
+    documented = {"start": set("ERR:" + e for e in LAUNCH_FAILURE.values()),
+                  "join": {"ERR:TimeoutError", "ERR:SubprocessError", "ERR:EvalFailure"},
+                  "get_distance_matrix": {"ERR:ValueError"}}      # "requires full_matrix_calculation()"
     for t in trace[1:]:
         op, res, b, a = t["op"], t["result"], t["before"], t["after"]
         if res in ("no-app", "unmodelled", "bad-op"):
@@ -1228,6 +1364,17 @@ def oracle(case):
                 v.append((f"C20/lifecycle/refused-but-allowed/{name}@{b['st']}", f"{op} in {b['st']} raised AppStateError ({case['ops']})"))
             if not allowed and not refused:
                 v.append((f"C20/lifecycle/accepted-but-forbidden/{name}@{b['st']}", f"{op} in {b['st']} -> {res} ({case['ops']})"))
+            if allowed and not refused and res.startswith("ERR:") and res not in documented.get(name, set()):
+                v.append((f"C20/lifecycle/allowed-call-raised/{name}@{b['st']}/{res[4:]}",
+                          f"`{op}` is allowed in {b['st']} but raised {res[4:]} ({case['ops']})"))
+            if name == "get_guide_tree" and res.startswith("ok"):
+                exp = "ok " + ";".join(f"0..{k}" for k in range(1, nseq))
+                if res != exp:
+                    v.append(("C20/result/guide-tree-differs-from-tool-output", f"{res} expected {exp} ({case['ops']})"))
+            if name == "get_distance_matrix" and res.startswith("ok"):
+                exp = "ok " + ",".join(str(k) for k in range(nseq))
+                if res != exp:
+                    v.append(("C20/result/distance-matrix-differs-from-tool-output", f"{res} expected {exp} ({case['ops']})"))
             if refused and a != b:
                 diff = ",".join(k for k in a if a[k] != b[k])
                 v.append((f"C20/refusal-side-effect/{diff}/{b['st']}", f"refused {op} changed {diff}: {b} -> {a} ({case['ops']})"))
@@ -1419,6 +1566,27 @@ def cases(rng, tier):
                             [[f"join {z}"], ["start", f"join {z}", "state"], ["start", "state", f"join {z}", f"join {z}"],
                              ["start", "tick", f"join {z}"], ["start", "tick", "state", f"join {z}"]]):
                     add(_mk(f"new {wrapper} {tool} 3 prot", ops, "join-zero"))
+    # ten and more sequences (two-digit running numbers / names in the tools' output files), all result getters
+    big = [("mafft", "ok", 11), ("mafft", "reorder", 10), ("clustalo", "reorder", 12), ("muscle3", "ok", 10), ("muscle5", "reorder", 11)]
+    if not quick:
+        big += [(wr, tl, n) for wr in ("mafft", "clustalo", "muscle3", "muscle5") for tl in ("ok", "reorder") for n in (10, 11, 12)]
+    for wr, tl, n in big:
+        getters = ["call get_alignment", "call get_alignment_order"] + (["call get_guide_tree"] if wr != "muscle5" else [])
+        add(_mk(f"new {wr} {tl} {n} prot", ["start", "tick", "join -"] + getters, "many-sequences"))
+    add(_mk("new clustalo ok 4 prot", ["call full_matrix_calculation", "start", "join -", "call get_distance_matrix", "call get_guide_tree"], "many-sequences"))
+    add(_mk("new clustalo reorder 11 nuc", ["call full_matrix_calculation", "call set_guide_tree", "start", "tick", "join -",
+                                           "call get_distance_matrix", "call get_guide_tree", "call get_alignment"], "many-sequences"))
+    # exotic sequence types: custom alphabets of every size up to the amino-acid alphabet (24), exactly 24, and 25
+    sizes = (1, 2, 20, 23, 24, 25) if quick else tuple(range(1, 27))
+    for wr in ("muscle3", "mafft"):
+        for k in sizes:
+            add(_mk(f"new {wr} {'reorder' if k % 2 else 'ok'} 3 generic{k}", ["start", "tick", "join -", "call get_alignment", "call get_seqtype"], "alphabet-size"))
+    for wr in ("clustalo", "muscle5"):
+        add(_mk(f"new {wr} ok 3 generic4", ["start"], "alphabet-size"))     # no custom matrices: TypeError at construction
+    for k in sizes:
+        codes = sorted({0, k // 2, k - 1})
+        out.append({"kind": "mapseq", "ops": [f"mapseq {k} {','.join(map(str, codes))}", f"mapseq {k} _",
+                                               f"mapseq {k} {','.join(str((7 * j) % k) for j in range(9))}"]})
     for c in _exhaustive_base(3 if quick else 4):
         if not quick or len(c["ops"]) <= 3 or rng.random() < 0.12:
             add(c)
@@ -1501,6 +1669,8 @@ def distribution(cases, impl_outs):
         w = c["ops"][0].split()
         if w[0] == "newweb":
             w = ["new", "blastweb", w[1] + "/" + w[3]]
+        if w[0] == "mapseq":
+            w = ["new", "map_sequence", "-"]
         wr[w[1]] = wr.get(w[1], 0) + 1
         tools[w[2]] = tools.get(w[2], 0) + 1
         for line in o or []:
